@@ -554,6 +554,9 @@ def r16_7(ctx, prog, crate):
             if e[0] == "payload":
                 e = e[3]
                 continue
+            if e[0] == "adt" and e[2] in ("Some", "Ok") and len(e[3]) == 1:
+                e = e[3][0]
+                continue
             if e[0] == "site" and e[1].rsplit("::", 1)[-1] in ("ok", "filter", "ok_or", "as_ref", "copied") and len(e) > 3 and e[3]:
                 e = e[3][0]
                 continue
@@ -561,6 +564,28 @@ def r16_7(ctx, prog, crate):
         ps = parse_site(e)
         if ps and ps[0] == "f64" and ps[1]:
             return ps[1], e[1] if e[0] == "site" else None
+        if e[0] == "site" and len(e) > 3 and len(e[3]) == 1:
+            # a crate-local "is a number" helper: one argument, parses it as f64
+            hb = prog.body(e[1], crate)
+            w = who(e[3][0])
+            if w is None and e[3][0][0] == "arg" and e[3][0][2] == ():
+                w = {2: "a", 3: "b"}.get(e[3][0][1])
+            if hb is not None and w and any(c.callee.endswith("str::parse") and (c.gargs or ["?"])[0] == "f64" for c in hb.live_calls()):
+                return w, "helper:" + hb.local_ty(0)
+        return None
+
+    def inner_f64(e, depth=0):
+        """side of the one f64 parse an expression is computed from"""
+        if depth > 8 or not isinstance(e, tuple):
+            return None
+        ns = num_side(e)
+        if ns:
+            return ns[0]
+        for x_ in e[1:]:
+            if isinstance(x_, tuple):
+                r_ = inner_f64(x_, depth + 1)
+                if r_:
+                    return r_
         return None
 
     MIRROR = {"lt": "gt", "gt": "lt", "eq": "eq"}
@@ -594,15 +619,37 @@ def r16_7(ctx, prog, crate):
                     learn((ps[0], ps[1]), (a[2] == 0) if pol else (None if a[2] == 0 else None))
                     if not pol and a[2] == 0:
                         learn((ps[0], ps[1]), False)
+                elif a[1][0] == "site" and a[1][1].rsplit("::", 1)[-1] in ("partial_cmp",) and len(a[1][3]) == 2 and \
+                        num_side(a[1][3][0]) and num_side(a[1][3][1]):
+                    if not (a[2] == 1 and pol):
+                        feasible = False      # incomparable numbers (NaN): not decided, the path is left out
+                elif a[1][0] == "payload" and a[1][3][0] == "site" and a[1][3][1].rsplit("::", 1)[-1] == "partial_cmp" and \
+                        len(a[1][3][3]) == 2 and num_side(a[1][3][3][0]) and num_side(a[1][3][3][1]):
+                    sa, sb = num_side(a[1][3][3][0]), num_side(a[1][3][3][1])
+                    code = {255: "lt", -1: "lt", 0: "eq", 1: "gt"}
+                    if a[2] in code:
+                        r_ = {code[a[2]]}
+                    elif isinstance(a[2], str) and a[2].startswith("other:"):
+                        r_ = {"lt", "eq", "gt"} - {code.get(int(x_)) for x_ in a[2][6:].split(",")}
+                    else:
+                        r_ = {"lt", "eq", "gt"}
+                    if not pol:
+                        r_ = {"lt", "eq", "gt"} - r_
+                    if (sa[0], sb[0]) == ("b", "a"):
+                        r_ = {MIRROR[x_] for x_ in r_}
+                    if {sa[0], sb[0]} == {"a", "b"}:
+                        rel &= r_
                 elif ns:
                     # Result: Ok = 0; Option: Some = 1
-                    is_opt = a[1][0] == "site" and a[1][1].rsplit("::", 1)[-1] in ("ok", "filter")
+                    is_opt = (a[1][0] == "site" and a[1][1].rsplit("::", 1)[-1] in ("ok", "filter")) or \
+                        (ns[1] or "").startswith("helper:std::option::Option")
                     yes = 1 if is_opt else 0
+                    key = "num" if is_opt else "f64ok"     # Option forms come out of a NaN filter / helper; a bare Result does not
                     if a[2] in (0, 1):
-                        learn(("num", ns[0]), (a[2] == yes) == bool(pol))
+                        learn((key, ns[0]), (a[2] == yes) == bool(pol))
                     elif isinstance(a[2], str) and a[2].startswith("other:"):
                         v0 = int(a[2].split(":")[1])
-                        learn(("num", ns[0]), (v0 != yes) == bool(pol))
+                        learn((key, ns[0]), (v0 != yes) == bool(pol))
             elif a[0] == "bool" and a[1][0] == "site" and a[1][1].endswith(("Result::is_ok", "Result::is_err", "Option::is_some", "Option::is_none")) and a[1][3]:
                 x = a[1][3][0]
                 ps = None
@@ -620,6 +667,10 @@ def r16_7(ctx, prog, crate):
                     learn(("num" if ps[0] == "f64" else ps[0], ps[1]), v)
                 elif x[0] == "site" and num_side(x):
                     learn(("num", num_side(x)[0]), v)
+            elif a[0] == "bool" and a[1][0] == "site" and a[1][1].rsplit("::", 1)[-1] == "is_nan" and a[1][3]:
+                sd = inner_f64(a[1][3][0])
+                if sd:
+                    learn(("nan", sd), bool(pol))
             elif a[0] in ("Lt", "Le", "Gt", "Ge", "Eq", "Ne") and len(a) == 3:
                 sa, sb = num_side(a[1]), num_side(a[2])
                 if sa and sb and {sa[0], sb[0]} == {"a", "b"}:
@@ -631,6 +682,12 @@ def r16_7(ctx, prog, crate):
         def classes(sd):
             cs = {"U", "N", "F", "S"}
             u, i_, n = fact.get(("u128", sd)), fact.get(("i128", sd)), fact.get(("num", sd))
+            if n is None:
+                fo, nan = fact.get(("f64ok", sd)), fact.get(("nan", sd))
+                if nan is True or fo is False:
+                    n = False
+                elif fo is True:
+                    n = True       # NaN not excluded on this path: whether NaN is ranked as a non-number is not decided here
             if u is True:
                 cs &= {"U"}
             if u is False:
